@@ -21,6 +21,8 @@ import (
 	"fmt"
 	"math/rand"
 	"os"
+	"runtime"
+	"runtime/pprof"
 	"sort"
 	"strings"
 	"sync"
@@ -897,7 +899,7 @@ func domE2E(r *rand.Rand, seed int64, n int) {
 		return
 	}
 	w := newWorld()
-	defer w.e.StopControllers()
+	defer func() { w.e.StopControllers() }()
 	places := []struct {
 		name string
 		st   int
@@ -921,8 +923,13 @@ func domE2E(r *rand.Rand, seed int64, n int) {
 	}
 	// plain Set through the undecorated stores (history for rollbacks); returns the transaction index
 	// (through the draining decorator too: an abandoned watch must not block the store's event loop, see h.stall)
-	plainGnmi := nbgnmi.NewServerForVerif(w.e.Topo, &placeStore{Store: w.e.Txs}, w.e.Props, w.e.Cfgs, w.e.Registry, w.e.Conns, 0)
-	plainAdmin := admin.NewServerForVerif(&placeStore{Store: w.e.Txs}, w.e.Cfgs, w.e.Registry)
+	var plainGnmi *nbgnmi.Server
+	var plainAdmin *admin.Server
+	mkPlain := func() {
+		plainGnmi = nbgnmi.NewServerForVerif(w.e.Topo, &placeStore{Store: w.e.Txs}, w.e.Props, w.e.Cfgs, w.e.Registry, w.e.Conns, 0)
+		plainAdmin = admin.NewServerForVerif(&placeStore{Store: w.e.Txs}, w.e.Cfgs, w.e.Registry)
+	}
+	mkPlain()
 	plainSet := func(ups []row, vals []string) uint64 {
 		ctx, cancel := context.WithTimeout(context.Background(), 3*time.Second)
 		defer cancel()
@@ -933,7 +940,18 @@ func domE2E(r *rand.Rand, seed int64, n int) {
 		_, idx, _ := txInfo(resp)
 		return idx
 	}
+	inWorld := 0
 	for i < n {
+		// every fresh target costs the in-memory Atomix client about 10 MB (one in-process connection per
+		// primitive) which it only gives back when closed: start over with a new instance now and then
+		if inWorld >= 80 {
+			w.e.StopControllers()
+			w.e.Atomix.Close()
+			w = newWorld()
+			mkPlain()
+			inWorld = 0
+		}
+		inWorld++
 		pl := places[r.Intn(len(places))]
 		sync := r.Intn(2) == 0
 		c := e2eCase{sync: sync, waitFor: pl.st, deadline: 2500 * time.Millisecond}
@@ -1132,4 +1150,11 @@ func main() {
 	domWatch(r, *seed, *nWatch)
 	domE2E(r, *seed, *nE2E)
 	domStall(r, *seed, *nStall)
+	if f := os.Getenv("C08_MEMPROF"); f != "" {
+		if fh, err := os.Create(f); err == nil {
+			runtime.GC()
+			_ = pprof.WriteHeapProfile(fh)
+			fh.Close()
+		}
+	}
 }
